@@ -24,10 +24,11 @@ RULE = ("correspondence (1): every primitive of lib/PreludeX.v (+ - * / unary -,
 TRUSTED = ["lib/PreludeX.v: hand-written exception semantics of Python float / utils.Float arithmetic, math.sqrt, math.exp (compared "
            "with the real operators on special values on every run)",
            "scipy.stats frozen distributions never raise and return plain floats (fam_total; observed by the oracle)",
-           "float overflow in x**2 is outside the model (the property bounds magnitudes by 1e100)",
+           "intermediate rounding and overflow to +-inf are not represented in the model's exact finite arithmetic (the proof is a kind "
+           "derivation valid for every operand value; the analysis path contains no ** operator, which is the one that raises on overflow)",
            "tools/py2coq.py translator; tools/specs.py check that with_zero_div wraps every statistic and that _exp is the saturating exponential"]
 ASSUMES = []
-SPECIALS = ["-inf", "-2.5", "-1", "0", "0.0", "1", "3", "inf", "nan", "800", "-5"]
+SPECIALS = ["-inf", "-2.5", "-1", "0", "0.0", "1", "3", "inf", "nan", "800", "-5", "1e200"]
 
 
 # ------------------------------------------------------------------ primitive operations
@@ -90,13 +91,15 @@ def primitive_cases():
     for name, f in ops2:
         for ka, sa in vals:
             for kb, sb in vals:
-                if name in ("xmul", "xadd", "xsub") and "800" in (sa, sb):
-                    continue
+                if name in ("xmul", "xadd", "xsub") and ("800" in (sa, sb) or "1e200" in (sa, sb)):
+                    continue     # (1e200 * 1e200 overflows to inf in floats; the model's finite arithmetic is exact)
                 cases.append((f"xshow ({name} {coq_val(ka, sa)} {coq_val(kb, sb)})", (lambda f=f, a=(ka, sa), b=(kb, sb): f(py_val(*a), py_val(*b))),
                               f"{name} {ka}:{sa} {kb}:{sb}"))
     for name, f in ops1:
         for ka, sa in vals:
             if sa == "800" and "npow" in name:
+                continue
+            if sa == "1e200" and name in ("nexp", "nexp_sat"):
                 continue
             cases.append((f"xshow ({name} {coq_val(ka, sa)})", (lambda f=f, a=(ka, sa): f(py_val(*a))), f"{name} {ka}:{sa}"))
     cmps = [("neqb", lambda a, b: a == b), ("nltb", lambda a, b: a < b)]
@@ -133,7 +136,7 @@ def parse_zpairs(s):
 # ------------------------------------------------------------------ aggregates-level cases
 COLS = ["y", "d", "x", "e"]
 STATV = ["0", "0", "1", "-1", "2", "0.5", "-3", "inf", "nan"]
-VARV = ["0", "0", "1", "4", "0.25", "-1e-17", "1e-17", "inf", "nan"]
+VARV = ["0", "0", "1", "4", "0.25", "-1e-17", "1e-17", "inf", "nan", "1e170"]
 
 
 def rand_agg_case(rng):
@@ -288,8 +291,13 @@ def rand_data_case(rng):
         y = col(rng, rng.choice(["rand", "pos", "ints"]), n)
         a, b = rng.choice([(3, 0), (2, 1), (1, 0), (-2, 0), (0.5, 3)])
         x = [a * v + b for v in y]
+    which = rng.choice(["mean", "meancov", "ratio", "ratiocov", "ratiocov1"])
+    if rng.random() < 0.08:      # huge magnitudes (squares still representable) over a denominator mean near zero
+        y = [rng.choice([1e50, -3e60, 1e90, 2.5e75])] * n if rng.random() < 0.5 else [rng.uniform(1, 9) * 1e60 for _ in range(n)]
+        d = col(rng, rng.choice(["tinymean", "zeromean", "rand"]), n0) + col(rng, rng.choice(["tinymean", "rand"]), n - n0)
+        which = rng.choice(["ratio", "ratiocov", "ratiocov1"])
     return {"kind": "data", "n0": n0, "y": y, "d": d, "x": x, "e": e,
-            "which": rng.choice(["mean", "meancov", "ratio", "ratiocov", "ratiocov1"]),
+            "which": which,
             "alternative": rng.choice(["two-sided", "greater", "less"]), "equal_var": rng.random() < 0.35, "use_t": rng.random() < 0.65,
             "backend": rng.choice(B.KINDS)}
 
@@ -332,7 +340,8 @@ def check_data_case(case):
                 want = float(nu / de)
                 if not near(float(got), want, 1e-9 * max(abs(want), scale / float(abs(de)))):
                     fails.append(f"{name} = {got} but the data give {want}")
-            elif de == 0:
+            elif de == 0 and (nu == 0 or abs(nu) > 1e-9 * scale):
+                # (a numerator mean within rounding of zero has no definite sign in floats: inf and NaN are both right)
                 want = math.inf if nu > 0 else math.nan
                 # an exactly zero denominator mean in Fractions need not be exactly zero in floats; compare only when it is
                 if sum(data["d"][:n0] if name == "control" else data["d"][n0:]) == 0 and w == "ratio":
